@@ -26,26 +26,41 @@ func EscAutomaton(p *core.Prog, r *core.Report) {
 		return
 	}
 	r.Fn("gts.shiftSelector")
-	var loop *ast.ForStmt
+	var loop ast.Stmt
+	var loopBody *ast.BlockStmt
 	var sw *ast.SwitchStmt
 	ast.Inspect(fd.Body, func(n ast.Node) bool {
-		if fs, ok := n.(*ast.ForStmt); ok && loop == nil {
-			loop = fs
-			for _, st := range fs.Body.List {
-				if s, ok := st.(*ast.SwitchStmt); ok && s.Tag != nil {
-					sw = s
+		if loop != nil {
+			return false
+		}
+		switch fs := n.(type) {
+		case *ast.ForStmt:
+			loop, loopBody = fs, fs.Body
+		case *ast.RangeStmt:
+			loop, loopBody = fs, fs.Body
+		}
+		if loopBody != nil {
+			for _, st := range loopBody.List {
+				switch s := st.(type) {
+				case *ast.SwitchStmt:
+					if s.Tag != nil {
+						sw = s
+					}
+				case *ast.IfStmt:
+					// the same dispatch written as a chain `if c == K1 {..} else if c == K2 {..} else {..}`
+					sw = chainAsSwitch(info, s)
 				}
 			}
 		}
 		return true
 	})
-	if loop == nil || sw == nil || len(loop.Body.List) != 1 {
+	if loop == nil || sw == nil || len(loopBody.List) != 1 {
 		r.Und("ESC-AUTOMATON", "gts.shiftSelector|shape", p.Pos(fd.Pos()), "the splitter is not a loop whose body is one switch on the current byte")
 		return
 	}
 	// the flag: the one bool local assigned in the loop
 	var esc types.Object
-	ast.Inspect(loop.Body, func(n ast.Node) bool {
+	ast.Inspect(loopBody, func(n ast.Node) bool {
 		if as, ok := n.(*ast.AssignStmt); ok && len(as.Lhs) == 1 {
 			if o := core.ObjOf(info, as.Lhs[0]); o != nil {
 				if b, ok := o.Type().Underlying().(*types.Basic); ok && b.Kind() == types.Bool {
@@ -180,4 +195,70 @@ func EscAutomaton(p *core.Prog, r *core.Report) {
 			}
 		}
 	}
+}
+
+// chainAsSwitch reads `if [c := X;] c == K1 [|| c == K2] {A} else if c == K3 {B} else {C}`
+// as the tagged switch it spells out (every condition compares the same operand
+// with constants); nil if the statement is not such a chain. The clause bodies
+// are the original statement lists.
+func chainAsSwitch(info *types.Info, is *ast.IfStmt) *ast.SwitchStmt {
+	var tag ast.Expr
+	sw := &ast.SwitchStmt{Switch: is.Pos(), Body: &ast.BlockStmt{}}
+	same := func(a, b ast.Expr) bool {
+		oa, ob := core.ObjOf(info, a), core.ObjOf(info, b)
+		if oa != nil || ob != nil {
+			return oa == ob
+		}
+		return types.ExprString(a) == types.ExprString(b)
+	}
+	var consts func(e ast.Expr) ([]ast.Expr, bool)
+	consts = func(e ast.Expr) ([]ast.Expr, bool) {
+		be, ok := ast.Unparen(e).(*ast.BinaryExpr)
+		if !ok {
+			return nil, false
+		}
+		switch be.Op {
+		case token.LOR:
+			l, ok1 := consts(be.X)
+			r, ok2 := consts(be.Y)
+			return append(l, r...), ok1 && ok2
+		case token.EQL:
+			if tv, has := info.Types[be.Y]; !has || tv.Value == nil {
+				return nil, false
+			}
+			if tag == nil {
+				tag = be.X
+			} else if !same(tag, be.X) {
+				return nil, false
+			}
+			return []ast.Expr{be.Y}, true
+		}
+		return nil, false
+	}
+	for cur := is; cur != nil; {
+		if cur.Init != nil && cur != is {
+			return nil
+		}
+		ks, ok := consts(cur.Cond)
+		if !ok {
+			return nil
+		}
+		sw.Body.List = append(sw.Body.List, &ast.CaseClause{Case: cur.Pos(), List: ks, Body: cur.Body.List})
+		switch e := cur.Else.(type) {
+		case nil:
+			cur = nil
+		case *ast.IfStmt:
+			cur = e
+		case *ast.BlockStmt:
+			sw.Body.List = append(sw.Body.List, &ast.CaseClause{Case: e.Pos(), Body: e.List})
+			cur = nil
+		default:
+			return nil
+		}
+	}
+	if tag == nil || len(sw.Body.List) < 2 {
+		return nil
+	}
+	sw.Tag = tag
+	return sw
 }
